@@ -15,6 +15,7 @@ way at the moment they are flushed. Plain overlays' packets reach the raw endpoi
 """
 from __future__ import annotations
 
+import asyncio
 import hashlib
 import itertools
 import os
@@ -44,7 +45,7 @@ ALPHABET = ["send_anon", "send_anon2", "send_plain", "ready_ok", "ready_noflag",
 LIFECYCLE = ["replace_overlay", "unload_plain", "load_second_anon"]
 EXTRA = ["ready_firsthop_ipv8"]
 # messages the anonymised overlay receives (through the tunnel) and reacts to on its own
-INCOMING = ["in_intro_request", "in_intro_response6", "in_puncture_request"]
+INCOMING = ["in_intro_request", "in_intro_response6", "in_puncture_request", "in_beacon"]
 # what another TunnelEndpoint of the same process does (a second pseudonym running the same community without anonymity)
 OTHER = ["other_plain_send", "other_anon_off"]
 
@@ -297,6 +298,47 @@ async def run_word(rig: Rig, word: list, case: dict) -> tuple[bool, str]:
         elif ev == "burst":
             for _ in range(101):
                 do_send(rig.A, step)
+        elif ev == "in_beacon":
+            # overlay A is configured with the LAN broadcast bootstrapper (a raw UDP socket of its own); another host's
+            # beacon for A's service arrives there. Whatever A sends in reaction is a packet of an anonymised overlay:
+            # it must take the TunnelEndpoint, never the bootstrapper's socket
+            from ipv8.bootstrapping.udpbroadcast import bootstrapper as bb
+            if getattr(rig, "beacon_owner", None) is not rig.A:
+                from ..capture import _FakeSocket
+
+                class RecSocket(_FakeSocket):
+                    # the OS socket the bootstrapper creates by hand: what is written to it is kept (beacons are not)
+                    def __init__(self, *a, **kw):
+                        super().__init__(*a, **kw)
+                        self.log = []
+
+                    def sendto(self, data, addr):
+                        if not bytes(data).startswith(bb.HDR_ANNOUNCE):
+                            self.log.append((bytes(data), tuple(addr)))
+                        return len(data)
+                real = bb.socket
+                bb.socket = RecSocket
+                try:
+                    boot = bb.UDPBroadcastBootstrapper(bootstrap_timeout=2.0)
+                    await boot.initialize(rig.A)
+                finally:
+                    bb.socket = real
+                rig.A.bootstrappers.append(boot)
+                rig.beacon_owner = rig.A
+                rig.beacon_socket = boot.endpoint._socket  # noqa: SLF001
+                rig.beacon_transport = [t for t in rig.loop.transports
+                                        if isinstance(t.protocol, bb.BroadcastBootstrapEndpoint) and not t.closed][-1]
+            bt, sock = rig.beacon_transport, rig.beacon_socket
+            n0, m0 = len(bt.sent), len(sock.log)
+            bt.inject(bb.HDR_ANNOUNCE + rig.A.get_prefix(), ("192.168.1.77", 41000))
+            await asyncio.sleep(0)
+            for (d, a) in [*bt.sent[n0:], *sock.log[m0:]]:
+                if d[:22] in requested:
+                    fail("A1", "raw_send:beacon", f"a {len(d)}-byte packet of an anonymised overlay (message id {d[22]}) was "
+                                                  f"written to the broadcast bootstrapper's own UDP socket, to {tuple(a)} "
+                                                  f"(step {step})")
+            nontrivial = True
+            check_raw(step)
         elif ev in INCOMING:
             # a genuine signed message of a remote member reaches overlay A the way its traffic does (out of a circuit);
             # whatever A sends in reaction is a packet of an overlay that asked for anonymity
